@@ -329,14 +329,21 @@ def showcase(r, k=None):
     if k == "footnotes":
         keys = r.sample(["1", "n", "Note", "k2"], r.randint(1, 3))
         body = " ".join("%s[^%s]" % (w(), r.choice(keys + ["zz"])) for _ in range(r.randint(1, 4)))
-        defs = "".join("[^%s]: %s%s\n%s" % (kk, w(), end(), r.choice(["", "   cont %s%s\n" % (w(), end()), "\n   para two%s\n" % end()])) for kk in keys)
+        defs = "".join("[^%s]: %s%s\n%s" % (kk, w(), end(), r.choice(["", "   cont %s%s\n" % (w(), end()), "\n   para two%s\n" % end()])) if r.random() < 0.85
+                       else "[^%s]:%s\n" % (kk, r.choice([" ", "", "  \n   ", " \\"]))            # a note without text
+                       for kk in keys)
         return body + "\n\n" + defs
     if k == "abbr":
         return "The HTML and W3C %s HTML\n\n*[HTML]: Hyper %s\n*[W3C]: World \"Wide\" <Web>\n" % (w(), w())
     if k == "table":
         cols = r.randint(1, 3)
         row = lambda: "| " + " | ".join(inline(r, 1, ("table",)) for _ in range(cols)) + " |"  # noqa
-        return row() + "\n|" + "|".join(r.choice(["---", ":--", "--:", ":-:"]) for _ in range(cols)) + "|\n" + "".join(row() + "\n" for _ in range(r.randint(0, 3)))
+        body = "".join(row() + "\n" for _ in range(r.randint(0, 3)))
+        if r.random() < 0.4:
+            # degenerate body rows: empty, one cell too many or too few, a line boundary other than the newline inside a cell
+            body += "".join(r.choice(["||\n", "| |\n", "|\n", "|||\n", "| a |\n", "| a | b | c | d |\n", "| x\u2028y | z |\n", "| x\x0cy |\n", "|\t|\n", "| \\| |\n", "|a|\x85|\n"])
+                            for _ in range(r.randint(1, 3)))
+        return row() + "\n|" + "|".join(r.choice(["---", ":--", "--:", ":-:"]) for _ in range(cols)) + "|\n" + body
     if k == "def_list":
         return "%s\n%s\n: %s%s\n: %s\n\n  more %s\n" % (w(), w(), w(), end(), w(), w())
     if k == "task_lists":
